@@ -1,7 +1,8 @@
 #!/bin/bash
-# run every claimed check (quick by default) on the current tree; prints one line per property
-cd "$(dirname "$0")/.."; tier=${1:-quick}
-for p in $(python3 -c "import json; print(' '.join(c['property_id'] for c in json.load(open('MANIFEST.json'))['checks']))"); do
+# run every claimed check (quick by default; or the properties named after the tier) on the current tree; prints one line per property
+cd "$(dirname "$0")/.."; tier=${1:-quick}; shift
+props="$@"; [ -z "$props" ] && props=$(python3 -c "import json; print(' '.join(c['property_id'] for c in json.load(open('MANIFEST.json'))['checks']))")
+for p in $props; do
   out=$(./check $p $tier 2>&1); rc=$?
   echo "$p rc=$rc $(echo "$out" | grep -c '^KNOWN-FINDING') known | $(echo "$out" | tail -1 | cut -c1-160)"
 done
